@@ -1,12 +1,11 @@
 (* Properties/C12.v -- C12: the elastic symmetry decomposition is correct and frame
-   independent.  Only statements; each is closed by `exact` of a lemma of Proofs_decomp.v.
-   The clause "for an orthorhombic tensor in a rotated frame the symmetry cartesian
-   coordinate system found from the two eigenbases is the rotation (sccs_is_R), hence
-   mono = tric = 0 and the hexagonal axis co-rotates" is NOT proved here (open obligation,
-   see docs/C12.md); it is carried by the run-time comparison of harness/props/c12.py. *)
+   independent.  Only statements; each is closed by `exact` of a lemma of Proofs_decomp.v / Proofs_decomp2.v.
+   The frame clause for rotated orthorhombic tensors (sccs_is_R, mono = tric = 0, the
+   reported axis is +- a column of the rotation) is proved in Proofs_decomp2.v; what stays
+   open is named _partial below (see docs/C12.md). *)
 From Coq Require Import Reals ZArith List.
 From PV Require Import Num NumR Model_voigt Model_decomp Proofs_tensors_alg Proofs_tensors_rot
-  Proofs_tensors_maps Proofs_tensors_proj Inst_tensors Proofs_decomp.
+  Proofs_tensors_maps Proofs_tensors_proj Inst_tensors Proofs_decomp Proofs_decomp2.
 From PV.gen Require Import Gen_tensors.
 Import ListNotations.
 Open Scope R_scope.
@@ -59,11 +58,89 @@ Theorem C12_perp_plane_gives_perp_iso : forall (x : arr NumR) K G K' G',
 Proof. exact perp_plane_iso. Qed.
 
 (* orthorhombic vectors (components 9..20 zero) have no monoclinic / triclinic part *)
-Theorem C12_ortho_mono_tric_vanish_partial : forall x : arr NumR,
+Theorem C12_ortho_range_in_mono : forall x : arr NumR,
   veq (k_ortho_project x) x -> veq (k_mono_project x) x.
 Proof. exact ortho_range_in_mono. Qed.
+
+(* contractions_rotate: dilat (rotate T R) = R . dilat T . R^T and the same for deviat, on the
+   generated voigt_decompose, for every R with R^T R = I *)
+Theorem C12_contractions_rotate : forall M Q : arr NumR, sym6 M -> orth (mat3 Q) ->
+  eq2b (mat3 (fst (k_voigt_decompose (rotM M Q))))
+       (mm (mm (mat3 Q) (mat3 (fst (k_voigt_decompose M)))) (tr3 (mat3 Q))) /\
+  eq2b (mat3 (snd (k_voigt_decompose (rotM M Q))))
+       (mm (mm (mat3 Q) (mat3 (snd (k_voigt_decompose M)))) (tr3 (mat3 Q))).
+Proof. exact contractions_rotate. Qed.
+
+(* eigvec_unique: S symmetric, E any orthonormal eigenbasis (column j for lam j), the three
+   lam distinct: every unit eigenvector v (S v = mu v) is +- a column of E, mu its eigenvalue *)
+Theorem C12_eigvec_unique : forall (S E : M3) (lam : nat -> R) (v : V3) (mu : R),
+  sym3 S -> orth E -> eigcols S E lam ->
+  (forall i, (i < 3)%nat -> mv S v i = mu * v i) ->
+  distinct3 lam -> dotv v v = 1 ->
+  exists j s, (j < 3)%nat /\ (s = 1 \/ s = -1) /\ mu = lam j /\
+              forall i, (i < 3)%nat -> v i = s * E i j.
+Proof. exact eigvec_unique. Qed.
+
+(* sccs_is_R.  vm = T0 seen in the frame Rq (vte vm = rotate T0 Rq), T0 orthorhombic with
+   three distinct principal values of BOTH contractions; Ed, Ev = what the two eigh oracles may
+   return (orthonormal columns, each an eigenvector; any order, any signs).  Then the columns
+   of Ed are a signed permutation (pi, s) of the columns of Rq, and row r of the rotation the
+   model hands to `rotate` for candidate i is  s * (column pi((i+r) mod 3) of Rq)  -- the
+   nearest-eigenvector pairing with its 10-degree bound and signed-index trick included. *)
+Theorem C12_sccs_is_R : forall (vm Ed Ev Rq : arr NumR) (T0 : T4) (mud muv : nat -> R),
+  sym6 vm -> ortho4 T0 -> orth (mat3 Rq) ->
+  eq4b (t4 (k_voigt_to_elastic_tensor vm)) (rot4 T0 (mat3 Rq)) ->
+  distinct3 (fun k => dil4 T0 k k) -> distinct3 (fun k => dev4 T0 k k) ->
+  orth (mat3 Ed) -> eigcols (mat3 (fst (k_voigt_decompose vm))) (mat3 Ed) mud ->
+  orth (mat3 Ev) -> eigcols (mat3 (snd (k_voigt_decompose vm))) (mat3 Ev) muv ->
+  exists pi s, signed_cols Ed Rq pi s /\
+    forall i r a, (r < 3)%nat -> (a < 3)%nat ->
+      mat3 (@sccs_rotation NumR Ed Ev i) r a = s ((i + r) mod 3) * mat3 Rq a (pi ((i + r) mod 3)).
+Proof. exact sccs_is_R. Qed.
+
+(* ortho_mono_tric_vanish, on the WHOLE function: whichever of the three candidate frames
+   elasticity_components1 selects, the reported monoclinic (index 6) and triclinic (index 7)
+   percentages of a rotated orthorhombic tensor are exactly zero *)
+Theorem C12_ortho_mono_tric_vanish :
+  forall (M Ed Ev Rq : arr NumR) (T0 : T4) (mud muv : nat -> R) out,
+  let vm := k_upper_tri_to_symmetric_6 M in
+  sym6 vm -> ortho4 T0 -> orth (mat3 Rq) ->
+  eq4b (t4 (k_voigt_to_elastic_tensor vm)) (rot4 T0 (mat3 Rq)) ->
+  distinct3 (fun k => dil4 T0 k k) -> distinct3 (fun k => dev4 T0 k k) ->
+  orth (mat3 Ed) -> eigcols (mat3 (fst (k_voigt_decompose vm))) (mat3 Ed) mud ->
+  orth (mat3 Ev) -> eigcols (mat3 (snd (k_voigt_decompose vm))) (mat3 Ev) muv ->
+  @elasticity_components1 NumR M Ed Ev = Ok out ->
+  nth 6 out 0 = 0 /\ nth 7 out 0 = 0.
+Proof. exact ec1_mono_tric_vanish. Qed.
+
+(* hex_axis_corotates, PARTIAL: the reported hexagonal axis (indices 8..10) is +- Rq e_k for
+   some k, i.e. the image under Rq of a coordinate axis of the orthorhombic frame (+- e_k is what
+   the unrotated run, Rq = I, can report).  OPEN: that k is the SAME index in the rotated and
+   the unrotated run (needs: the distance to the hexagonal projection of a candidate depends
+   only on which axis is third, and a strict minimum among the three). *)
+Theorem C12_hex_axis_corotates_partial :
+  forall (M Ed Ev Rq : arr NumR) (T0 : T4) (mud muv : nat -> R) out,
+  let vm := k_upper_tri_to_symmetric_6 M in
+  sym6 vm -> ortho4 T0 -> orth (mat3 Rq) ->
+  eq4b (t4 (k_voigt_to_elastic_tensor vm)) (rot4 T0 (mat3 Rq)) ->
+  distinct3 (fun k => dil4 T0 k k) -> distinct3 (fun k => dev4 T0 k k) ->
+  orth (mat3 Ed) -> eigcols (mat3 (fst (k_voigt_decompose vm))) (mat3 Ed) mud ->
+  orth (mat3 Ev) -> eigcols (mat3 (snd (k_voigt_decompose vm))) (mat3 Ev) muv ->
+  @elasticity_components1 NumR M Ed Ev = Ok out ->
+  exists k sgn, (k < 3)%nat /\ pm1 sgn /\
+    forall a, (a < 3)%nat -> nth (8 + a) out 0 = sgn * mat3 Rq a k.
+Proof. exact ec1_hex_axis. Qed.
 
 (* non-vacuity *)
 Example C12_nonvacuous : sym6 (fun _ : nat => 1) /\ orth (mat3 (@eye3 NumR)) /\
   0 < sumsq 21 (@k_voigt_matrix_to_vector NumR (fun _ => 1)).
 Proof. exact C12_nonvacuous_proof. Qed.
+
+(* the tensor-side hypotheses of the frame theorems hold for diag(1,2,3,1,1,1) in the
+   identity frame *)
+Example C12_frame_nonvacuous :
+  let vm := M_ortho_example in let T0 := t4 (k_voigt_to_elastic_tensor vm) in
+  sym6 vm /\ ortho4 T0 /\ orth (mat3 (@eye3 NumR)) /\
+  eq4b (t4 (k_voigt_to_elastic_tensor vm)) (rot4 T0 (mat3 (@eye3 NumR))) /\
+  distinct3 (fun k => dil4 T0 k k) /\ distinct3 (fun k => dev4 T0 k k).
+Proof. exact C12_frame_nonvacuous_proof. Qed.
